@@ -314,6 +314,8 @@ def run(ctx: RuleContext, p: Program) -> None:
     ctx.try_rule(grammar_rules.rule_spacing_re, p, 'SPACING-RE')
     from . import round4
     ctx.try_rule(round4.rule_memo, p, 'MEMO')
+    from . import c12
+    ctx.try_rule(c12.rule_gram_look, p, c12.grammar(p), 'GRAM-LOOK')
     ctx.not_decided += ['which invisible tokens neighbour a model at run time', 'that adjacent models see the same run (follows from '
                         'the mirror-image getters, not observed)']
     ctx.assumptions += ['TokenStore.get_prev/get_next/splice/insert semantics (C07)']
